@@ -101,6 +101,19 @@ Proof.
 Qed.
 Print Assumptions C17_reachable.
 
+(* Reachable over the connection's lifetime: stopping (un-registering) the SIBLING role of
+   a started protocol instance - Client.Stop, or the first half of a server restart on
+   the peer's Done - leaves the instance reachable exactly as before. *)
+Theorem C17_reachable_after_sibling_stop : forall c n p r, In (p, r) (started c n) ->
+  route_seg (unregister (registry c n) p (opp r)) (mux_mode c n) (raw_of (p, opp r)) = inr (p, r).
+Proof.
+  intros c n p r Hin. pose proof (C17_reachable c n p r Hin) as H.
+  unfold accept_seg, accept_seg_f in H. fold (registry c n) in H. fold (mux_mode c n) in H.
+  rewrite route_seg_unregister; [exact H|]. left.
+  apply route_seg_ok in H. destruct H as [H _]. cbn [snd] in H. rewrite <- H. destruct r; discriminate.
+Qed.
+Print Assumptions C17_reachable_after_sibling_stop.
+
 (* ---- non-vacuity ---- *)
 (* a node-to-node client that asked for duplex, told "duplex" by the server at v13: both roles of peer-sharing run *)
 Example C17_nonvacuous_duplex :
